@@ -8,7 +8,7 @@ def run(tier, seed, t0):
     return _sess.run_session_check(
         PROP, tier, seed, t0,
         families=[("consumer", 600, 10000), ("connclose", 100, 1000), ("chanclose", 100, 1000),
-                  ("consumer_drop", 150, 2000)],
+                  ("consumer_drop", 150, 2000), ("mixed", 150, 2000)],
         own_kinds=("consumer-drop",),
         mc_jobs=[("MC_Conn_consumer_q.cfg", None, "quick"), ("MC_Conn_consumer.cfg", None, "thorough"),
                  ("MC_Conn_consumer_bug.cfg", "OneTerminal", None)],
@@ -22,6 +22,9 @@ def run(tier, seed, t0):
                                  (x.get("do") == "srv" and x["frames"][0]["k"] in ("cancel", "chclose", "connclose"))
                                  for x in s["steps"]),
         assumptions=_sess.COMMON_ASSUMPTIONS + [
+            "plus 'mixed' sessions: seeded interleavings of everything at once (RPCs, nowait calls, multi-frame publishes at "
+            "frame_max 4096, consumers, listeners, withheld replies, server deliveries/confirms/returns/cancels/channel closes, "
+            "transport stalls, read and write segmentation)",
             "the driver keeps a clone of every consumer's receiver so that the queue can be read after the Consumer "
             "object is gone"])
 
